@@ -738,20 +738,48 @@ where
             Filter::BorrowedData(data, mode, SelectionQualifier::Metadata) => {
                 resource.annotations().filter_data_byref(data, *mode).test()
             }
-            Filter::Annotations(annotations, mode, SelectionQualifier::Normal, _) => resource
-                .annotations()
-                .filter_annotations_byref(annotations, *mode)
-                .test(),
-            Filter::Annotations(annotations, mode, SelectionQualifier::Metadata, _) => resource
-                .annotations_as_metadata()
-                .filter_annotations_byref(annotations, *mode)
-                .test(),
-            Filter::BorrowedAnnotations(annotations, mode, SelectionQualifier::Normal, _) => {
+            Filter::Annotations(annotations, FilterMode::Any, SelectionQualifier::Normal, _) => {
                 resource
                     .annotations()
-                    .filter_annotations_byref(annotations, *mode)
+                    .filter_any_byref(annotations)
                     .test()
             }
+            Filter::Annotations(annotations, FilterMode::All, SelectionQualifier::Normal, _) => {
+                resource
+                    .annotations()
+                    .filter_all(annotations.clone(), resource.rootstore())
+                    .test()
+            }
+            Filter::Annotations(annotations, FilterMode::Any, SelectionQualifier::Metadata, _) => {
+                resource
+                    .annotations_as_metadata()
+                    .filter_any_byref(annotations)
+                    .test()
+            }
+            Filter::Annotations(annotations, FilterMode::All, SelectionQualifier::Metadata, _) => {
+                resource
+                    .annotations_as_metadata()
+                    .filter_all(annotations.clone(), resource.rootstore())
+                    .test()
+            }
+            Filter::BorrowedAnnotations(
+                annotations,
+                FilterMode::Any,
+                SelectionQualifier::Normal,
+                _,
+            ) => resource
+                .annotations()
+                .filter_any_byref(annotations)
+                .test(),
+            Filter::BorrowedAnnotations(
+                annotations,
+                FilterMode::All,
+                SelectionQualifier::Normal,
+                _,
+            ) => resource
+                .annotations()
+                .filter_all((*annotations).clone(), resource.rootstore())
+                .test(),
             Filter::Annotation(annotation, SelectionQualifier::Normal, _) => {
                 resource.annotations().filter_handle(*annotation).test()
             }
